@@ -73,6 +73,10 @@ def run(tier, seed):
             v.violation(dict(viol['sig'], via='hub'), viol.get('replay'))
     # concurrent phase: every client of three sessions (same peer ids in each) sends at once
     conc = vlib.run_vh_sharded(['routing-concurrent', '-thruserv', srv, '-rounds', '8' if tier == "quick" else '60'], 4, timeout=1800)
+    # the same against a server that issues TURN credentials (they embed the peer id), with peer ids containing ':' '@' '%'
+    conc2 = vlib.run_vh_sharded(['routing-concurrent', '-thruserv', srv, '-rounds', '4' if tier == "quick" else '24', '-turn-ids'], 4, timeout=1800)
+    conc['violations'] = conc['violations'] + conc2['violations']
+    conc['behaviours'] += conc2['behaviours']
     for viol in conc['violations']:
         v.violation(viol['sig'], viol.get('replay'))
     v.coverage = dict(states=r['distinct'], transitions=r['generated'], traces_validated_against_impl=res['behaviours'],
